@@ -41,6 +41,20 @@ func c13Gen(seed uint64, run int, tier string) *Case {
 		}
 		return c
 	}
+	if run%8 == 5 {
+		// the byte stream starts with the Tversion itself; requests whose wire format depends on the dialect follow
+		// it without waiting
+		c.Stratum = "server-handshake"
+		c.Cfg["handshake"] = 1
+		c.Cfg["msize"] = int64(r.Pick(256, 1024, 8192))
+		c.Cfg["cmsize"] = int64(r.Pick(200, 256, 1024, 8192))
+		c.Cfg["dotu"], c.Cfg["sdotu"] = int64(r.Intn(2)), 1
+		c.Cfg["maxpend"] = int64(r.Pick(0, 2, 64))
+		c.Cfg["delivery"] = int64(r.Pick(1, 2, 2))
+		c.Cfg["split"] = int64(run / 8 * 7)
+		c.Cfg["nmsg"] = int64(r.Range(1, 6))
+		return c
+	}
 	ms := r.Pick(96, 128, 256, 1024, 4096)
 	c.Cfg["msize"], c.Cfg["cmsize"] = int64(ms), int64(ms)
 	c.Cfg["dotu"], c.Cfg["sdotu"] = int64(r.Intn(2)), 1
@@ -78,6 +92,10 @@ func c13Gen(seed uint64, run int, tier string) *Case {
 func c13Exec(x *Ctx) {
 	if x.C.cfg("side") == 1 {
 		c10Exec(x)
+		return
+	}
+	if x.C.cfg("handshake") != 0 {
+		c13Handshake(x)
 		return
 	}
 	c := x.C
@@ -303,4 +321,113 @@ func c13Exec(x *Ctx) {
 	if sc.Clnt.Out.Written-sessionStart > 8*int(ms) {
 		x.Probe("session-larger-than-receive-buffer")
 	}
+}
+
+// c13Handshake: Tversion and the requests behind it arrive as one byte stream under the run's segmentation. The
+// replies must be those the same bytes get when every message is delivered by itself: Rversion, then each request
+// decoded in the dialect and msize that Tversion agreed on.
+func c13Handshake(x *Ctx) {
+	c := x.C
+	fs := NewScriptFS(x)
+	fs.PlanFor = func(inv *Inv) *Plan { return &Plan{NWqid: -1, NData: -1, QType: qDir} }
+	sys := NewSrvSys(x, fs, fs, uint32(c.cfg("msize")), true, int(c.cfg("maxpend")), int(c.cfg("debug")))
+	sc := sys.AddConn(0, int(c.cfg("seg")))
+	peer := sc.Peer
+	dotu := c.cfg("dotu") != 0 // the server speaks .u: the dialect is the one the client asks for
+	ver := "9P2000"
+	if dotu {
+		ver = "9P2000.u"
+	}
+	r := NewRand(c.Seed ^ 0x13a)
+	var msgs []*Msg
+	var kinds []string
+	msgs = append(msgs, &Msg{Type: Tversion, Tag: NOTAG, Msize: uint32(c.cfg("cmsize")), Version: ver})
+	kinds = append(kinds, "version")
+	for i := 0; i < int(c.cfg("nmsg")); i++ {
+		tag := uint16(10 + i)
+		switch r.Intn(5) {
+		case 0:
+			msgs = append(msgs, &Msg{Type: Tattach, Tag: tag, Fid: uint32(20 + i), Afid: NOFID, Uname: "u1", Aname: "", Nuname: 1})
+			kinds = append(kinds, "attach")
+		case 1:
+			msgs = append(msgs, &Msg{Type: Tcreate, Tag: tag, Fid: 7777, Name: "n", Perm: 0o644, Mode: 1, Ext: ""})
+			kinds = append(kinds, "unknown-fid")
+		case 2:
+			msgs = append(msgs, &Msg{Type: Twstat, Tag: tag, Fid: 7777, Stat: nullStat(func(st *Stat) { st.Name = "x" })})
+			kinds = append(kinds, "unknown-fid")
+		case 3:
+			msgs = append(msgs, &Msg{Type: Tauth, Tag: tag, Afid: uint32(40 + i), Uname: "u1", Aname: "", Nuname: 1})
+			kinds = append(kinds, "no-auth")
+		default:
+			msgs = append(msgs, &Msg{Type: Tstat, Tag: tag, Fid: 7777})
+			kinds = append(kinds, "unknown-fid")
+		}
+	}
+	var sent []*Sent
+	rt.Go(rt.SiteSpawn, func() {
+		rt.SetName("client")
+		// Tversion is encoded the same in both dialects; what follows is encoded in the dialect it asks for
+		var all []byte
+		off := sc.Clnt.Out.Written
+		start := off
+		for _, m := range msgs {
+			b := Encode(m, dotu)
+			s := &Sent{Idx: len(peer.Sent), M: m, Raw: b, Start: off + len(all), End: off + len(all) + len(b), Step: rt.Step()}
+			all = append(all, b...)
+			peer.Sent = append(peer.Sent, s)
+			peer.out = append(peer.out, s)
+			sent = append(sent, s)
+		}
+		if c.cfg("delivery") == 2 {
+			p := int(c.cfg("split")) % len(all)
+			sc.Srv.In.Bounds = []int{start + p}
+			sc.Srv.In.Seg = rt.SegAll
+			x.Fault("single-split-point")
+		} else {
+			x.Fault("whole-session-one-write")
+		}
+		peer.Dotu = dotu // replies come in the negotiated dialect
+		peer.WriteRaw(all)
+	})
+	if !x.Run() {
+		return
+	}
+	x.FaultN("seg-split", sc.Srv.In.Splits)
+	for i, s := range sent {
+		what := fmt.Sprintf("message %d (%s) of a stream that starts with Tversion(%q)", i, s.M, ver)
+		if s.Reply == nil || s.Reply.M == nil {
+			x.Violate("s1-no-reply", "%s got no reply (connection closed: %v)", what, peer.EOF)
+			return
+		}
+		rep := s.Reply.M
+		switch kinds[i] {
+		case "version":
+			wantMs := uint32(c.cfg("msize"))
+			if cm := uint32(c.cfg("cmsize")); cm < wantMs {
+				wantMs = cm
+			}
+			if rep.Type != Rversion || rep.Version != ver || rep.Msize != wantMs {
+				x.Violate("s5-reply", "%s answered %s, want Rversion msize=%d version=%q", what, rep, wantMs, ver)
+			}
+		case "attach":
+			if rep.Type != Rattach {
+				x.Violate("s5-reply", "%s answered %s, want Rattach", what, rep)
+			}
+		case "unknown-fid":
+			if rep.Type != Rerror || rep.Ename != "unknown fid" {
+				x.Violate("s5-reply", "%s answered %s, want Rerror 'unknown fid'", what, rep)
+			}
+		case "no-auth":
+			if rep.Type != Rerror {
+				x.Violate("s5-reply", "%s answered %s, want Rerror (no authentication)", what, rep)
+			}
+		}
+	}
+	// what reached the implementation carries the arguments the stream carried
+	for _, in := range fs.Log {
+		if in.Op == "attach" && in.Req != nil && (in.Req.Tc.Uname != "u1" || in.Req.Tc.Aname != "") {
+			x.Violate("s4-args", "Tattach arrived at the implementation with uname %q aname %q, the stream carried \"u1\" and \"\"", in.Req.Tc.Uname, in.Req.Tc.Aname)
+		}
+	}
+	x.Probe("requests-behind-tversion-in-one-stream")
 }
